@@ -122,21 +122,18 @@ def ob_handoff(h, shape):
               'the child\'s argv is not the given vector (plus exactly the hooks-path override when one applies)')
     # the child gets its own process group exactly when stdin is not a terminal (a foreground read from a
     # background group stops the child: SIGTTIN), and then the wrapper forwards the terminating signals to it
-    tty = P.state.get('isatty', {})
-    stdin_tty = tty.get(0) if isinstance(tty, dict) else None
+    # whether each descriptor is a terminal is a fact of the environment, asked about or not: the answers the
+    # code never asked for are drawn here, so that a decision taken on another descriptor is judged on stdin too
+    from mirsym.models.process import _tty
     ev = P.events
     b_ = [i for i, e in enumerate(ev) if e[0] == 'pre_exec_begin']
     e_ = [i for i, e in enumerate(ev) if e[0] == 'pre_exec_end']
     own_group = bool(b_ and e_ and any(e[0] == 'setpgid' for e in ev[b_[0]:e_[0]]))
-    if stdin_tty is not None:
-        is_tty = P.branch(binop('Eq', stdin_tty, Sc(1, 32, True)))
-        h.inputs_struct['stdin_tty'] = is_tty
-        if isinstance(tty, dict) and 1 in tty:
-            h.inputs_struct['stdout_tty'] = bool(P.branch(binop('Eq', tty[1], Sc(1, 32, True))))
-        h.require(own_group == (not is_tty), 'own-process-group-iff-stdin-is-not-a-terminal',
-                  'stdin %s a terminal, child %s its own process group' % ('is' if is_tty else 'is not', 'gets' if own_group else 'does not get'))
-    else:
-        h.require(False, 'own-process-group-iff-stdin-is-not-a-terminal', 'the decision was taken without asking whether stdin is a terminal')
+    is_tty = P.branch(binop('Eq', _tty(P, 0), Sc(1, 32, True)))
+    h.inputs_struct['stdin_tty'] = bool(is_tty)
+    h.inputs_struct['stdout_tty'] = bool(P.branch(binop('Eq', _tty(P, 1), Sc(1, 32, True))))
+    h.require(own_group == (not is_tty), 'own-process-group-iff-stdin-is-not-a-terminal',
+              'stdin %s a terminal, child %s its own process group' % ('is' if is_tty else 'is not', 'gets' if own_group else 'does not get'))
     if own_group and child not in ('spawn_fails',):
         sigs = []
         for e in ev:
